@@ -339,6 +339,8 @@ structure WOracle where
   broken : Bool := false                -- a call whose effect the oracle does not predict (reset failed, ...)
   toks : List WOp := []                 -- ops since init/reset, newest first (C05 tree builder)
   base : Array UInt8 := #[]             -- destination contents at the last init / successful reset
+  errNow : Bool := false                -- C09: the implementation reported a non-zero writer error in its last observation
+  lastDump : Option String := none      -- C09: the last dump, if the error was already latched when it was taken
   deriving Inhabited
 
 structure OState where
@@ -554,7 +556,33 @@ def cursorOracle (o : OState) (k : Nat) (po : POracle) (op : String) (toks : Lis
        | none => if op == "gn" then stop else (o, po))
     | _, _ => stop
 
+/-- C09, writer side, judged on the implementation's own answers and independent of the C04 bookkeeping:
+    while the error flag is latched (no init / successful reset in between) the destination does not change. -/
+def writerLatchOracle (o : OState) (k : Nat) (toks : List String) (impl : String) : OState :=
+  let wo := o.ws.getD k {}
+  let setWO (o : OState) (x : WOracle) : OState := { o with ws := o.ws.setIfInBounds k x }
+  let parts := impl.splitOn " "
+  let errOf : Option Bool := match parts with
+    | _ :: e :: _ => if e.startsWith "e" then some ((dropPrefix e 1).toNat! != 0) else none
+    | _ => none
+  match toks with
+  | ["dump"] =>
+    let o := match wo.lastDump with
+      | some d =>
+        let o := { o with nLatchJudged := o.nLatchJudged + 1 }
+        if wo.errNow && d != impl then o.flag "C09" s!"@{k} the writer stored bytes while its error flag was latched: destination {d} became {impl}" else o
+      | none => o
+    setWO o { wo with lastDump := if wo.errNow then some impl else none }
+  | _ =>
+    match errOf with
+    | some e =>
+      -- init and a successful reset clear the latch legitimately
+      let cleared := (toks.headD "" == "W") || (toks.headD "" == "wx" && parts.headD "" == "1")
+      setWO o { wo with errNow := e, lastDump := if cleared || !e then none else wo.lastDump }
+    | none => o
+
 def writerOracle (o : OState) (k : Nat) (toks : List String) (impl : String) : OState :=
+  let o := writerLatchOracle o k toks impl
   let wo := o.ws.getD k {}
   let setWO (o : OState) (x : WOracle) : OState := { o with ws := o.ws.setIfInBounds k x }
   let parts := impl.splitOn " "
